@@ -1,16 +1,26 @@
 import Utcp.Lemmas.Log
 import Utcp.Handshake
+import Utcp.Lemmas.Balance
+import Utcp.Props.C18
 /-!
 # C16 — all memory is returned; acknowledged data is not retained
 
 The model emits an `alloc k` / `free k` event at exactly the places the C code calls `utcp_realloc` (the
-correspondence runs compare these event streams op by op with the allocator callback of the real code).  Proved
-here: the teardown half of the balance — un-initialising a connection emits exactly one `free` per block the state
-holds, whatever that state is — and the release rules of the data path (an ACK releases exactly the records of
-that packet; a delivered or refused fragment group is released as a whole).  The full balance invariant
-`live = held` over arbitrary histories, and pointer-level double-free / use-after-free, are *not* proved: they
-are observed (allocator event correspondence, unknown-pointer detection, LeakSanitizer, `live 0` after every
-teardown and after every prefix).
+correspondence runs compare these event streams op by op with the allocator callback of the real code).
+
+* **one call, any state** (first half): un-initialising a connection emits exactly one `free` per block the state holds,
+  whatever that state is; an ACK releases exactly the records of that packet; a delivered or refused fragment group is released
+  as a whole.
+* **every history** (`Lemmas/Balance.lean`, second half): the balance invariant `BInvK` — bunch nodes obtained minus released =
+  nodes held in the three lists of the open channels; channel blocks obtained minus released = open channels; the open-channel
+  array is allocated iff its capacity is non-zero; the channel table is sorted without duplicates — holds after
+  `utcp_sequence_init` and is preserved by every operation of a connected endpoint (`C18.Op`: send of any bunch, flush,
+  `ReceivedPacket` on any bit string with everything the ACKs and NAKs in it trigger, update with its deferred channel teardown).
+  Hence, **after any history, teardown leaves every balance at zero** (`teardown_returns_everything`: the *prefix* quantifier of the
+  property is the universally quantified history) and **a quiescent connection holds no bunch buffer** (`quiescent_holds_nothing`).
+Not expressible in the model: block *identities* (the events are anonymous, so "exactly once" is a balance, not a per-pointer
+statement), use-after-free; these are observed (unknown-pointer / double-free detection in the harness allocator, ASan, `live 0`
+after every teardown and after every prefix).
 -/
 namespace Utcp.Props.C16
 open Utcp Utcp.Gen
@@ -123,5 +133,62 @@ theorem destroy_frees_conn (ep : Endpoint) :
 /-! non-vacuity -/
 example : (({} : Conn).freeChan { inRec := [{}], outRec := [{ packetId := 1, bits := [] }, { packetId := 2, bits := [] }] }).log
     = [.free .chan, .free .node, .free .node, .free .node] := by decide
+
+/-! ## every history -/
+
+theorem step_balance (e : Env) (c : Conn) (op : C18.Op) (h : BInvK c 0) : BInvK (C18.apply e c op) 0 := by
+  cases op with
+  | send b => exact sendBunch_bal e c b h
+  | flush => exact flush_bal e c 0 h
+  | recv bits => exact receivedPacket_bal e c bits h
+  | update => exact update_bal e c h
+
+theorem run_balance (ops : List (Env × C18.Op)) : ∀ c : Conn, BInvK c 0 → BInvK (C18.run c ops) 0 := by
+  induction ops with
+  | nil => intro c h; exact h
+  | cons p rest ih =>
+    intro c h
+    obtain ⟨e, op⟩ := p
+    exact ih _ (step_balance e c op h)
+
+/-- the invariant holds on a freshly initialised connection -/
+theorem fresh_balance (i o : Int) : BInvK (({} : Conn).seqInit i o) 0 := fresh_bal _ rfl rfl rfl
+
+/-- **teardown after every prefix of every history**: whatever the connection has been through — bunches awaiting ack,
+out-of-order bunches queued, a group half assembled, open or closed channels — `utcp_channels_uninit` leaves the balance of bunch
+nodes, of channel blocks and of the open-channel array at zero -/
+theorem teardown_returns_everything (ops : List (Env × C18.Op)) (c : Conn) (h : BInvK c 0) :
+    balK .node (C18.run c ops).uninitChans.log = 0 ∧ balK .chan (C18.run c ops).uninitChans.log = 0 ∧
+    balK .open_ (C18.run c ops).uninitChans.log = 0 :=
+  uninitChans_balanced _ (run_balance ops c h)
+
+/-- **no retention**: while the connection lives, once nothing awaits acknowledgement, nothing is queued out of order and no
+group is half assembled, every bunch node ever obtained has been released -/
+theorem quiescent_holds_nothing (c : Conn) (h : BInvK c 0)
+    (hq : ∀ p ∈ c.chans, p.2.inRec = [] ∧ p.2.outRec = [] ∧ p.2.inPartial = []) : balK .node c.log = 0 := by
+  rw [h.node]
+  have : held c.chans = 0 := by
+    unfold held
+    have hz : ∀ l : List (Nat × Channel), (∀ p ∈ l, p.2.inRec = [] ∧ p.2.outRec = [] ∧ p.2.inPartial = []) → (l.map (fun p => nodesOf p.2)).sum = 0 := by
+      intro l
+      induction l with
+      | nil => intro _; rfl
+      | cons p rest ih =>
+        intro hl
+        obtain ⟨h1, h2, h3⟩ := hl p List.mem_cons_self
+        simp only [List.map_cons, List.sum_cons, ih (fun q hq => hl q (List.mem_cons_of_mem _ hq))]
+        simp [nodesOf, h1, h2, h3]
+    exact hz _ hq
+  rw [this]; rfl
+
+/-- memory does not grow with traffic: at every point of every history the number of live bunch nodes is exactly the number of
+bunches in the channels' lists -/
+theorem live_nodes_are_held (ops : List (Env × C18.Op)) (c : Conn) (h : BInvK c 0) :
+    balK .node (C18.run c ops).log = held (C18.run c ops).chans := by
+  have := (run_balance ops c h).node; omega
+
+/-! non-vacuity -/
+example : BInvK (C18.run (({} : Conn).seqInit 7 16383) [({}, .send { chIndex := 1, bOpen := true, bReliable := true, data := [true] }), ({}, .flush), ({}, .update)]) 0 :=
+  run_balance _ _ (fresh_balance 7 16383)
 
 end Utcp.Props.C16
